@@ -24,7 +24,7 @@ CLAIMED = {
  'C12': ('handler -> liwe boundary for code actions: no panic edge reachable in action()/changes() for any node x provider, every offered action resolves', '3 C12'),
  'C13': ('offset -> line/column kernels: to_line_range / to_inline_range for every sorted line table and byte range (symbolic 64-bit), line_starts for every line structure with LF / CRLF terminators and symbolic line lengths', '3 C13'),
  'C17': ('squash == independent bounded expansion for every reference graph within the bounds and symbolic u8 depth; termination (call-depth bound never hit); CLI rebuild of the squashed tree is faithful', '3 C17'),
- 'C18': ('outline paths == independent forward enumeration over the documents (soundness of every listed chain, completeness for every heading, finiteness under cycles, rank ordering of the search list), heading levels symbolic', '3 C18'),
+ 'C18': ('outline paths == independent forward enumeration over the documents (soundness of every listed chain, completeness for every heading, finiteness under cycles, rank ordering of the search list), heading levels symbolic; the empty-query search (real Database::global_search) returns min(100, n) distinct entries that are the head of the documented order, for cached lists of 3..102 (thorough ..120) paths with symbolic reference counts and text lengths at the cut-off', '3 C18'),
  'C20': ('arena representation invariant established by every build within the bounds', '3 C20'),
 }
 NA = {
